@@ -178,7 +178,9 @@ class RemoveImportsTransformer(CSTTransformer):
             module_name = name.evaluated_name
             found = False
             for import_item in self.import_items_to_be_removed:
-                if import_item.module_name == module_name:
+                # `import x` is only what is being moved if the item is the
+                # module itself, not a name imported from it
+                if import_item.module_name == module_name and not import_item.obj_name:
                     found = True
                     break
             if not found:
